@@ -184,6 +184,13 @@ def fix_generics(it: Item) -> Item:
     return it
 
 
+class ProbeUnavailable(Exception):
+    """harness/genprobe does not build against the tree under test (an internal signature of strum_macros changed, say)"""
+
+
+NO_PROBE = False      # set by check.py after a ProbeUnavailable: corpora are then built without anything only the probe can tell
+
+
 def resolve_names(prop: str, items):
     """NON-ASCII identifiers are outside the Coq model's domain (Model/Heck.v is stated over ASCII bytes). A variant with such an
     identifier and no explicit name gets `model_name`: what the Rust reference (harness/genprobe `mod reference`, written on heck
@@ -196,9 +203,17 @@ def resolve_names(prop: str, items):
                 todo.append((v, style))
     if not todo:
         return
+    if NO_PROBE:
+        # without the probe nobody can name a non-ASCII identifier (the model is stated over ASCII): such variants leave the corpus
+        for it in items:
+            keep = [v for v in it.variants if v.ident.isascii() or v.model_name is not None or any(m.kind in ("ser", "tos") for m in v.metas)]
+            if len(keep) != len(it.variants):
+                it.variants = keep
+                it._lost_variants = True       # (classify then leaves the definition out: it is no longer the one its family meant)
+        return
     binp, err = R.build_genprobe()
     if binp is None:
-        raise RuntimeError("genprobe does not build: " + str(err))
+        raise ProbeUnavailable("genprobe (the generator sources of /repo compiled as a library) does not build: " + str(err)[-1500:])
     lines = ["caseu %d %s %s" % (n, hx(st) if st is not None else "-", hx(v.ident)) for n, (v, st) in enumerate(todo)]
     obs, died = R.run_genprobe(binp, lines, os.path.join(R.WORK, prop, "names"))
     for n, (v, st) in enumerate(todo):
@@ -229,6 +244,9 @@ def classify(prop: str, items, extra_kind=None):
     out = []
     for k in range(len(items)):
         o = obs.get(k, "")
+        if getattr(items[k], "_lost_variants", False):
+            out.append(None)
+            continue
         if o.startswith("generr") or o.startswith("genpanic") or o.startswith("MODEL-FAILURE") or not o:
             out.append(None)
             continue
